@@ -555,10 +555,22 @@ def run_check(tier, seed):
         ext_cases.append((stated, [Shape((0,), 'theorem', me)], 'C02:extend-self-citation'))
         me = 'verif_ext_%d' % len(ext_cases)
         ext_cases.append((stated, [Shape((0,), 'theorem', me), Shape((1,), 'substitution', Inst(), [(0,)])], 'C02:extend-self-citation'))
+    # the name of the extension is already in use: a library theorem, or a theorem installed by an earlier extension of the
+    # same theory -- with the same or another statement, with and without a proof.  Whatever is installed without an accepted
+    # proof is reported as an axiom, whether or not the name is new.
+    reuse_cases = []
+    for stated in THMS + [Thm(FALSE)]:
+        for nm in ('trueI', 'conjI', 'verif_prev'):
+            reuse_cases.append((stated, None, 'C02:extend-name-reused', nm))
+            reuse_cases.append((stated, [Shape((0,), 'theorem', 'trueI')], 'C02:extend-name-reused', nm))
+            reuse_cases.append((stated, [Shape((0,), 'sorry', th=stated)], 'C02:extend-name-reused', nm))
+    ext_cases = [c + (None,) for c in ext_cases] + reuse_cases
     eexprs = []
-    for k, (stated, shapes, key) in enumerate(ext_cases):
+    for k, (stated, shapes, key, given_name) in enumerate(ext_cases):
         thy2 = copy.copy(theory.thy)
-        name = 'verif_ext_%d' % k
+        name = given_name or 'verif_ext_%d' % k
+        if given_name == 'verif_prev':
+            thy2.checked_extend([extension.Theorem('verif_prev', Thm(kterm.true), build_proof([Shape((0,), 'theorem', 'trueI')]))])
         prf = build_proof(shapes) if shapes is not None else None
         try:
             rep = thy2.checked_extend([extension.Theorem(name, stated, prf)])
@@ -579,13 +591,15 @@ def run_check(tier, seed):
             # oracle: installed as proved => gap-free acceptance concluding the stated theorem
             good = False
             try:
+                if shapes is None:
+                    raise ValueError('no proof supplied')
                 res = theory.check_proof(build_proof(shapes), no_gaps=True)
                 good = res is not None and res.can_prove(stated)
             except Exception:
                 good = False
             if not good:
                 run.violation('property', 'checked_extend installs %s as proved although its proof is not an accepted gap-free proof of it' % sstr(stated),
-                              dict(stated=sstr(stated), proof=[s.show() for s in shapes],
+                              dict(stated=sstr(stated), name=name, proof=[s.show() for s in shapes] if shapes is not None else None,
                                    reproduce='theory.thy.checked_extend([extension.Theorem(name, stated, prf)]).get_axioms()'),
                               key=key or 'C02:extend-unchecked')
     # a refused extension leaves nothing behind that a later extension could cite
@@ -626,7 +640,7 @@ def run_check(tier, seed):
                       dict(correspondence='C02/check_proof', proof=[s.show() for s in shapes], no_gaps=ng,
                            impl=dict(verdict=res[0], final=sstr(res[1]), gaps=[sstr(g) for g in res[2]], error=res[3]),
                            model=out[:2000]), failing_input=False)
-    for (stated, shapes, key), e in edis[:4]:
+    for (stated, shapes, key, _nm), e in edis[:4]:
         run.violation('correspondence', 'correspondence:C02/checked_extend: model and Theory.checked_extend disagree',
                       dict(correspondence='C02/checked_extend', stated=sstr(stated),
                            proof=None if shapes is None else [s.show() for s in shapes]), failing_input=False)
